@@ -190,31 +190,54 @@ def d5(repo: Repo) -> RuleResult:
 
 
 def storage_partition_py(repo: Repo) -> Optional[Dict[int, int]]:
-    """width 1..64 -> storage bits, derived from Formatter.get_nbits_of_integer
-    by interval partition of nbytes (1..8)."""
+    """width 1..64 -> storage bits, from Formatter.get_nbits_of_integer: the
+    paths of the function are enumerated and, for each width, the path whose
+    conditions fold to true (with t.nbits() = w, t.nbytes() = ceil(w / 8))
+    gives the returned constant."""
+    from .flows import compiler_flow
+    from .fold import by_name, feasible
+
     m = get_model(repo)
     f = m.func("renderer/formatter.py", "Formatter.get_nbits_of_integer")
-    table: Dict[int, int] = {}
-    for r in _rets(f.node):
-        if not (isinstance(r.value, ast.Constant) and isinstance(r.value.value, int)):
-            continue
-        for e, t in facts_at(r, f.node):
-            if not t or not isinstance(e, ast.Compare) or len(e.ops) != 1 or src_of(e.left) != "nbytes":
-                continue
-            op, cmpv = e.ops[0], e.comparators[0]
-            vals: List[int] = []
-            if isinstance(op, ast.Eq) and isinstance(cmpv, ast.Constant):
-                vals = [cmpv.value]
-            elif isinstance(op, ast.In):
-                try:
-                    vals = list(ast.literal_eval(cmpv))
-                except Exception:
-                    return None
-            for v in vals:
-                table[v] = r.value.value
-    if set(table) != set(range(1, 9)):
+    flow = compiler_flow(repo, "Formatter", "renderer/formatter.py", pure=("nbytes", "nbits"))
+    try:
+        paths = flow.run(f.node)
+    except Inconclusive:
         return None
-    return {w: table[(w + 7) // 8] for w in range(1, 65)}
+    table: Dict[int, int] = {}
+    for w in range(1, 65):
+        ok, unfolded = feasible(paths, by_name({}, {"nbytes": (w + 7) // 8, "nbits": w}))
+        if unfolded:
+            return None
+        vals = set()
+        for p in ok:
+            if p.done != "return" or p.ret is None or p.ret.const_value() is None:
+                if p.done == "raise":
+                    continue
+                return None
+            vals.add(p.ret.const_value())
+        if len(vals) != 1:
+            return None
+        table[w] = vals.pop()
+    return table
+
+
+def _ret_shapes(repo: Repo, cls: str, rel: str, meth: str, primitives: Tuple[str, ...] = (), pure: Tuple[str, ...] = ()) -> List[str]:
+    """Shapes of the values a method returns: literal text with {holes}."""
+    from .flows import compiler_flow
+    from .normal import show
+    from .pyflow import tpl_shape
+
+    m = get_model(repo)
+    f = m.func(rel, f"{cls}.{meth}")
+    flow = compiler_flow(repo, cls, rel, primitives=primitives, pure=pure + primitives)
+    out = []
+    for p in flow.run(f.node):
+        if p.done != "return" or p.ret is None:
+            continue
+        s = tpl_shape(p.ret)
+        out.append(s if s is not None else "{" + show(p.ret) + "}")
+    return sorted(set(out))
 
 
 @rule("C2", "integer storage: the smallest of 8/16/32/64 bits covering the width, identically in every place that needs it")
@@ -224,7 +247,7 @@ def c2(repo: Repo) -> RuleResult:
     m = get_model(repo)
     f = m.func("renderer/formatter.py", "Formatter.get_nbits_of_integer")
     if part is None:
-        res.unsure("C2: Formatter.get_nbits_of_integer is not a partition of nbytes 1..8 by ==/in tests")
+        res.unsure("C2: Formatter.get_nbits_of_integer: the returned storage size does not fold to one constant per width 1..64")
         return res
     want = {w: (8 if w <= 8 else 16 if w <= 16 else 32 if w <= 32 else 64) for w in range(1, 65)}
     diff = [w for w in range(1, 65) if part[w] != want[w]]
@@ -233,23 +256,36 @@ def c2(repo: Repo) -> RuleResult:
         fd = Finding("C2", f.rel, f.node.lineno, f.qual, f"width {diff[0]} -> {part[diff[0]]} bits", f"widths {diff[:6]} are stored in {sorted({part[w] for w in diff})}-bit integers; the smallest covering standard size is expected ({want[diff[0]]} for width {diff[0]})", witness=f"uint{diff[0]} field: struct layout / sizeof / sign extension disagree with the runtime", tag="get_nbits_of_integer")
         fd.part = "generator"
         res.bad(fd)
-    if "nbytes = t.nbytes()" not in src_of(f.node):
-        res.unsure("C2: storage is not derived from t.nbytes()")
     # users: uint/int type names per language
-    for relsfx, cn, meth, tpl in (
-        ("impls/c/formatter.py", "CFormatter", "format_uint_type", "'uint{0}_t'.format(self.get_nbits_of_integer(t))"),
-        ("impls/c/formatter.py", "CFormatter", "format_int_type", "'int{0}_t'.format(self.get_nbits_of_integer(t))"),
-        ("impls/go/formatter.py", "GoFormatter", "format_uint_type", "'uint{0}'.format(self.get_nbits_of_integer(t))"),
-        ("impls/go/formatter.py", "GoFormatter", "format_int_type", "'int{0}'.format(self.get_nbits_of_integer(t))"),
+    for relsfx, cn, meth, want_shape in (
+        ("impls/c/formatter.py", "CFormatter", "format_uint_type", "uint{self.get_nbits_of_integer(t)}_t"),
+        ("impls/c/formatter.py", "CFormatter", "format_int_type", "int{self.get_nbits_of_integer(t)}_t"),
+        ("impls/go/formatter.py", "GoFormatter", "format_uint_type", "uint{self.get_nbits_of_integer(t)}"),
+        ("impls/go/formatter.py", "GoFormatter", "format_int_type", "int{self.get_nbits_of_integer(t)}"),
     ):
         f2 = m.func(relsfx, f"{cn}.{meth}")
-        got = [src_of(r.value) for r in _rets(f2.node)]
         lang = "c" if "/c/" in relsfx else "go"
+        try:
+            got = _ret_shapes(repo, cn, relsfx, meth, primitives=("get_nbits_of_integer",))
+        except Inconclusive as e:
+            res.unsure(f"C2: {cn}.{meth}: {e}")
+            continue
         res.inst(part=lang, function=f2.qual, returns=got)
-        if got != [tpl]:
-            fd = Finding("C2", f2.rel, f2.node.lineno, f2.qual, str(got), f"the {lang} integer type is not named from get_nbits_of_integer(t)", witness="uint12 field declared with a type that does not hold 12 bits / differs from the runtime's storage size", tag=f"{cn}.{meth}")
-            fd.part = lang
-            res.bad(fd)
+        if got != [want_shape]:
+            if all("{" in g for g in got) and all(g.startswith(want_shape.split("{")[0]) for g in got) and not any("get_nbits_of_integer" in g for g in got):
+                fd = Finding("C2", f2.rel, f2.node.lineno, f2.qual, str(got), f"the {lang} integer type is not named from get_nbits_of_integer(t)", witness="uint12 field declared with a type that does not hold 12 bits / differs from the runtime's storage size", tag=f"{cn}.{meth}")
+                fd.part = lang
+                res.bad(fd)
+            elif len(got) == 1 and "{" not in got[0]:
+                fd = Finding("C2", f2.rel, f2.node.lineno, f2.qual, str(got), f"the {lang} integer type is the fixed name `{got[0]}` for every width", witness="uint12 field declared with a type that does not hold 12 bits / differs from the runtime's storage size", tag=f"{cn}.{meth}")
+                fd.part = lang
+                res.bad(fd)
+            elif len(got) == 1 and got[0].replace("self.get_nbits_of_integer(t)", "") != want_shape.replace("self.get_nbits_of_integer(t)", ""):
+                fd = Finding("C2", f2.rel, f2.node.lineno, f2.qual, str(got), f"the {lang} integer type name has the form `{got[0]}`, expected `{want_shape}`", witness="the generated code names a type that does not exist / has the wrong signedness", tag=f"{cn}.{meth}")
+                fd.part = lang
+                res.bad(fd)
+            else:
+                res.unsure(f"C2: {cn}.{meth}: returned shapes {got} not recognised")
     return res
 
 
@@ -424,105 +460,14 @@ def d4(repo: Repo) -> RuleResult:
     m = get_model(repo)
     lw = PyLower({}, names={})
 
-    def mask_site(relsfx: str, qual: str, part: str, nvar: str, maskvar: str) -> None:
-        try:
-            f = m.func(relsfx, qual)
-        except Inconclusive as e:
-            res.unsure(f"D4: {e}")
-            return
-        ss = _skip_set(f.node, nvar)
-        eff, env = lw.summarize(f.node)
-        env2: Dict[str, Poly] = {}
-        # evaluate the local assignments for n and mask
-        for st in ast.walk(f.node):
-            if isinstance(st, ast.Assign) and isinstance(st.targets[0], ast.Name) and st.targets[0].id in (nvar, maskvar):
-                if st.targets[0].id == nvar:
-                    env2[nvar] = V("n")
-                else:
-                    env2[maskvar] = lw.expr(st.value, {nvar: V("n")})
-        tpls = [_fstring_shape(x) for x in ast.walk(f.node) if isinstance(x, ast.JoinedStr)]
-        res.inst(part=part, function=qual, skip=sorted(ss) if ss is not None else None, mask=show(env2[maskvar]) if maskvar in env2 else None, templates=tpls[:4])
-        if ss is None:
-            res.unsure(f"D4: {qual}: skip test is not `{nvar} in <literal set>`")
-        elif not ss <= STANDARD:
-            fd = Finding("D4", f.rel, f.node.lineno, qual, str(sorted(ss)), f"widths {sorted(ss - STANDARD)} are skipped although their storage is wider than the width: negative values decode as large positives", witness=f"int{sorted(ss - STANDARD)[0]} holding -1", tag=f"{qual}:skip-set")
-            fd.part = part
-            res.bad(fd)
-        if maskvar not in env2:
-            res.unsure(f"D4: {qual}: mask assignment not found")
-        elif env2[maskvar] != -pow2(V("n")):
-            fd = Finding("D4", f.rel, f.node.lineno, qual, show(env2[maskvar]), f"the sign mask is `{show(env2[maskvar])}`, expected -(2**n) (all bits from n upward)", witness="int5 holding -3", tag=f"{qual}:mask")
-            fd.part = part
-            res.bad(fd)
-        test_ok = any(("{" + f"{nvar} - 1" + "}") in t and ">>" in t and "& 1" in t for t in tpls)
-        if not test_ok:
-            fd = Finding("D4", f.rel, f.node.lineno, qual, str(tpls[:3]), "the emitted test does not look at bit n-1", witness="int5 holding -3 / +3", tag=f"{qual}:test-bit")
-            fd.part = part
-            res.bad(fd)
-        if not any("|= {mask}" in t for t in tpls):
-            fd = Finding("D4", f.rel, f.node.lineno, qual, str(tpls[:3]), "the emitted statement does not OR the mask into the value", tag=f"{qual}:or-mask")
-            fd.part = part
-            res.bad(fd)
+    from .rules_gen import judge_hooks, judge_items
 
-    mask_site("impls/py/renderer.py", "BlockMessageMethodProcessIntItem.render_single", "py", "n", "mask")
-    mask_site("impls/c/formatter.py", "CFormatter.post_format_op_mode_endecode_int", "c", "n", "m")
-
-    def shift_site(relsfx: str, qual: str, part: str, skip_by_d: bool) -> None:
-        try:
-            f = m.func(relsfx, qual)
-        except Inconclusive as e:
-            res.unsure(f"D4: {e}")
-            return
-        t = src_of(f.node)
-        tpls = [_fstring_shape(x) for x in ast.walk(f.node) if isinstance(x, ast.JoinedStr)]
-        dvals = [src_of(n.value) for n in ast.walk(f.node) if isinstance(n, ast.Assign) and src_of(n.targets[0]) == "d"]
-        res.inst(part=part, function=qual, d=dvals, templates=tpls)
-        okd = len(dvals) == 1 and dvals[0] in ("self.formatter.get_nbits_of_integer(single) - single.nbits()", "self.get_nbits_of_integer(t) - n", "self.get_nbits_of_integer(t) - t.nbits()")
-        if not okd:
-            fd = Finding("D4", f.rel, f.node.lineno, qual, str(dvals), "the shift distance is not (storage bits - width)", witness="int5 in an int8: shifting by anything but 3 breaks the sign / value", tag=f"{qual}:distance")
-            fd.part = part
-            res.bad(fd)
-        if not (any("<<= {d}" in x for x in tpls) and any(">>= {d}" in x for x in tpls)):
-            fd = Finding("D4", f.rel, f.node.lineno, qual, str(tpls), "the shift pair `<<= d` then `>>= d` is not emitted", tag=f"{qual}:pair")
-            fd.part = part
-            res.bad(fd)
-        else:
-            il = min(i for i, x in enumerate(tpls) if "<<= {d}" in x)
-            ir = min(i for i, x in enumerate(tpls) if ">>= {d}" in x)
-            if il > ir:
-                fd = Finding("D4", f.rel, f.node.lineno, qual, str(tpls), "right shift is emitted before left shift", tag=f"{qual}:order")
-                fd.part = part
-                res.bad(fd)
-        if skip_by_d:
-            if "if d <= 0:" not in t and "if d == 0:" not in t and "if not d:" not in t:
-                fd = Finding("D4", f.rel, f.node.lineno, qual, "", "widths whose storage is wider are not all extended (skip is not `d <= 0`)", tag=f"{qual}:skip")
-                fd.part = part
-                res.bad(fd)
-        else:
-            ss = _skip_set(f.node, "n")
-            if ss is None or not ss <= STANDARD:
-                fd = Finding("D4", f.rel, f.node.lineno, qual, str(ss), "non-storage-sized widths are skipped", witness="int24 holding -1 with -O", tag=f"{qual}:skip-set")
-                fd.part = part
-                res.bad(fd)
-        # only on decode (op-mode hooks)
-        if "is_encode" in [a.arg for a in f.node.args.args]:
-            if not any(isinstance(n, ast.If) and src_of(n.test) == "is_encode" and n.body and isinstance(n.body[-1], ast.Return) for n in ast.walk(f.node)):
-                fd = Finding("D4", f.rel, f.node.lineno, qual, "", "the sign step is also emitted into the encoder", tag=f"{qual}:encode")
-                fd.part = part
-                res.bad(fd)
-
-    shift_site("impls/go/renderer.py", "BlockMessageMethodBpProcessIntItem.render_single", "go", True)
-    shift_site("impls/go/formatter.py", "GoFormatter.post_format_op_mode_endecode_int", "go", False)
-
-    # hooks are attached to Int (and alias of Int)
-    for relsfx, qual, part in (("impls/c/formatter.py", "CFormatter.post_format_op_mode_endecode_single_type", "c"), ("impls/go/formatter.py", "GoFormatter.post_format_op_mode_endecode_single_type", "go")):
-        f = m.func(relsfx, qual)
-        t = src_of(f.node)
-        res.inst(part=part, function=qual)
-        if not ("if isinstance(t, Alias):\n        t = t.type" in t and "if isinstance(t, Int):\n        return self.post_format_op_mode_endecode_int(t, chain, is_encode)" in t):
-            fd = Finding("D4", f.rel, f.node.lineno, qual, "", "the sign hook is not applied to Int and alias-of-Int", witness="type T = int5; T x = 1 holding -1 with -O", tag=f"{qual}:dispatch")
-            fd.part = part
-            res.bad(fd)
+    try:
+        judge_items(repo, res, "D4", ("sign",), lambda lang, kind: lang)
+        judge_items(repo, res, "D4", ("set",), lambda lang, kind: lang, only_tags=("caster",), leaves=("Int",))
+        judge_hooks(repo, res)
+    except Inconclusive as e:
+        res.unsure(f"D4: {e}")
     pl = m.func("renderer/formatter.py", "Formatter.format_op_mode_endecode_single_type")
     res.inst(part="planner", function=pl.qual)
     if "l.extend(self.post_format_op_mode_endecode_single_type(t, chain, is_encode))" not in src_of(pl.node):
@@ -530,14 +475,6 @@ def d4(repo: Repo) -> RuleResult:
         fd.part = "planner"
         res.bad(fd)
 
-    # python caster and bp.intN
-    f = m.func("impls/py/renderer.py", "BlockMessageMethodSetByteItem.render_single")
-    t = src_of(f.node)
-    res.inst(part="py", function=f.qual)
-    if "caster = 'bp.int{}'.format(self.formatter.get_nbits_of_integer(single))" not in t or "if isinstance(single, Int):" not in t:
-        fd = Finding("D4", f.rel, f.node.lineno, f.qual, "", "signed fields are not converted with bp.int<storage bits>", witness="int8 holding -1 decodes as 255", tag="py:caster")
-        fd.part = "py"
-        res.bad(fd)
     bp = m.mod("bitprotolib/bp.py")
     for N in (8, 16, 32, 64):
         fn = bp.funcs.get(f"int{N}")
@@ -567,130 +504,13 @@ def d4(repo: Repo) -> RuleResult:
 def d6(repo: Repo) -> RuleResult:
     res = RuleResult("D6", floor=10)
     m = get_model(repo)
-    for lang, relsfx, base, idx in (("py", "impls/py/renderer.py", "BlockMessageMethodGetSetByteItemBase", "[di.i({i})]"), ("go", "impls/go/renderer.py", "BlockMessageMethodBpGetSetByteItemBase", "[di.I({i})]")):
-        mod = m.mod(relsfx)
-        for cname in (base, "BlockMessageMethodGetAccessorItem" if lang == "py" else "BlockMessageMethodBpGetAccessorItem"):
-            c = mod.classes.get(cname)
-            if c is None:
-                res.unsure(f"D6: {relsfx}:{cname} vanished")
-                continue
-            # data reference
-            fr = c.methods.get("format_data_ref")
-            t = src_of(fr.node) if fr else ""
-            res.inst(part=lang, where=f"{cname}.format_data_ref")
-            prefix = "self." if lang == "py" else "m."
-            ok = fr is not None and f"for i in range(self.array_depth)" in t and idx.replace("{i}", "{i}") in _fstrings(fr.node) and (f"{prefix}{{self.message_field_name}}" in _fstrings(fr.node))
-            if not ok:
-                fd = Finding("D6", mod.rel, fr.node.lineno if fr else 0, f"{cname}.format_data_ref", "", "the data reference is not field name + one index per array depth (depths 0..depth-1)", witness="an array field: all elements alias element 0 / wrong nesting", tag=f"{lang}:{cname}:data_ref")
-                fd.part = lang
-                res.bad(fd)
-            rc = c.methods.get("render_case")
-            t = src_of(rc.node) if rc else ""
-            res.inst(part=lang, where=f"{cname}.render_case")
-            want = "if di.field_number == {field_number}:" if lang == "py" else "case {field_number}:"
-            if rc is None or "field_number = self.formatter.format_int_value(self.d.number)" not in t or want not in _fstrings(rc.node):
-                fd = Finding("D6", mod.rel, rc.node.lineno if rc else 0, f"{cname}.render_case", "", "the branch is not selected by this field's number", witness="two fields: bytes of field 2 are written into field 1", tag=f"{lang}:{cname}:case")
-                fd.part = lang
-                res.bad(fd)
-            ra = c.methods.get("render_array")
-            t = src_of(ra.node) if ra else ""
-            res.inst(part=lang, where=f"{cname}.render_array")
-            ok = ra is not None and "self.array_depth += 1" in t and "self.array_depth -= 1" in t
-            if ok:
-                # increment precedes the element rendering, decrement in finally
-                tr = [n for n in ast.walk(ra.node) if isinstance(n, ast.Try)]
-                ok = len(tr) == 1 and src_of(tr[0].body[0]) == "self.array_depth += 1" and any(src_of(s) == "self.array_depth -= 1" for s in tr[0].finalbody)
-            if not ok:
-                fd = Finding("D6", mod.rel, ra.node.lineno if ra else 0, f"{cname}.render_array", "", "array depth is not incremented before an element is rendered and restored afterwards", witness="byte[3] a: the accessor refers to `a` instead of `a[i]`", tag=f"{lang}:{cname}:depth")
-                fd.part = lang
-                res.bad(fd)
-    # traversal coverage of every item class (resolved through the MRO, so an override in a subclass is judged)
-    from .rules_a import type_domains
+    from .rules_gen import judge_items
 
-    doms = type_domains(repo)
-    byte_leaf = {"Bool", "Byte", "Int", "Uint", "Enum"}
-    need = {
-        "byte": {"render": byte_leaf | {"Array", "Alias"}, "render_array": byte_leaf | {"Alias"}, "render_alias": {"Bool", "Byte", "Int", "Uint", "Array"}},
-        "accessor": {"render": {"Message", "Array", "Alias"}, "render_array": {"Message", "Alias"}, "render_alias": {"Array"}},
-    }
-    subj = {"render": "self.d.type", "render_array": "array.element_type", "render_alias": "alias.type"}
-    for lang, relsfx in (("py", "impls/py/renderer.py"), ("go", "impls/go/renderer.py")):
-        mod = m.mod(relsfx)
-        for c in mod.classes.values():
-            rs = m.lookup(c, "render_single")
-            rm = m.lookup(c, "render_message")
-            kind = "byte" if (rs is not None and "render_single" in c.methods) else ("accessor" if (rm is not None and "render_message" in c.methods) else None)
-            if kind is None or c.name.endswith("Base"):
-                continue
-            for meth, required in need[kind].items():
-                f0 = m.lookup(c, meth)
-                if f0 is None:
-                    res.unsure(f"D6: {c.name}.{meth} not found")
-                    continue
-                tested = set()
-                for n in ast.walk(f0.node):
-                    if isinstance(n, ast.Call) and isinstance(n.func, ast.Name) and n.func.id == "isinstance" and len(n.args) == 2 and src_of(n.args[0]) == subj[meth]:
-                        tested |= {x.id for x in ([n.args[1]] if isinstance(n.args[1], ast.Name) else getattr(n.args[1], "elts", [])) if isinstance(x, ast.Name)}
-                covered = set()
-                for k in required:
-                    kc = m.cls(k, "_ast.py")
-                    if any(any(b.name == t for b in m.mro(kc)) for t in tested):
-                        covered.add(k)
-                res.inst(part=lang, where=f"{c.name}.{meth}", defined_in=f0.cls.name if f0.cls else None, tested=sorted(tested))
-                miss = sorted(required - covered)
-                if miss:
-                    fd = Finding("D6", mod.rel, f0.node.lineno, f"{c.name}.{meth}", str(sorted(tested)), f"the traversal (as resolved for {c.name}: defined in {f0.cls.name if f0.cls else '?'}) does not descend into {miss}: fields reaching their leaf through such a type get no branch in the generated accessor", witness="type Row = int24[3]; message M { Row r = 1 }: no `case 1` in the generated sign-extension / byte accessor", tag=f"{lang}:{c.name}.{meth}:coverage")
-                    fd.part = lang
-                    res.bad(fd)
-    # get byte items
-    pg = m.func("impls/py/renderer.py", "BlockMessageMethodGetByteItem.render_single")
-    fs = _fstrings(pg.node)
-    res.inst(part="py", where=pg.qual, templates=fs)
-    if not any(x.startswith("return ({value} {shift})") for x in fs) or "shift = '>> rshift'" not in src_of(pg.node) or "value = data = self.format_data_ref()" not in src_of(pg.node):
-        fd = Finding("D6", pg.rel, pg.node.lineno, pg.qual, str(fs), "get-byte does not return (data reference >> rshift)", witness="uint16: the second byte reads as the first", tag="py:get-byte")
-        fd.part = "py"
-        res.bad(fd)
-    gg = m.func("impls/go/renderer.py", "BlockMessageMethodBpGetByteItem.render_single")
-    fs = _fstrings(gg.node)
-    res.inst(part="go", where=gg.qual, templates=fs)
-    if "byte({data} {shift})" not in fs or "shift = '>> rshift'" not in src_of(gg.node):
-        fd = Finding("D6", gg.rel, gg.node.lineno, gg.qual, str(fs), "Go get-byte must narrow after shifting: byte(data >> rshift)", witness="uint16: byte(data) >> 8 is always 0", tag="go:get-byte")
-        fd.part = "go"
-        res.bad(fd)
-    # set byte items
+    try:
+        judge_items(repo, res, "D6", ("get", "set", "acc"), lambda lang, kind: lang)
+    except Inconclusive as e:
+        res.unsure(f"D6: {e}")
     ps = m.func("impls/py/renderer.py", "BlockMessageMethodSetByteItem.render_single")
-    t = src_of(ps.node)
-    fs = _fstrings(ps.node)
-    res.inst(part="py", where=ps.qual, templates=fs)
-    if "assign = '|='" not in t or "shift = '<< lshift'" not in t or "right = f'({value} {shift})'" not in t.replace('"', "'"):
-        fd = Finding("D6", ps.rel, ps.node.lineno, ps.qual, "", "set-byte does not OR (converted chunk << lshift) into the field", witness="uint16: the second chunk overwrites the first", tag="py:set-byte:or")
-        fd.part = "py"
-        res.bad(fd)
-    # plain '=' only for bool
-    assigns_eq = [n for n in ast.walk(ps.node) if isinstance(n, ast.Assign) and src_of(n.targets[0]) == "assign" and isinstance(n.value, ast.Constant) and n.value.value == "="]
-    for a in assigns_eq:
-        if _conds(a, ps.node) != {"isinstance(single, Bool)"}:
-            fd = Finding("D6", ps.rel, a.lineno, ps.qual, src_of(a), "plain `=` is used for a type other than bool: later chunks overwrite earlier ones", witness="uint16 field", tag="py:set-byte:assign")
-            fd.part = "py"
-            res.bad(fd)
-    # total converter: an IntEnum constructor is partial on chunk values
-    conv_enum_safe = any(
-        isinstance(n, ast.Assign) and src_of(n.targets[0]) == "type_name" and isinstance(n.value, ast.Constant) and n.value.value == "int" and "isinstance(single, Enum)" in _conds(n, ps.node)
-        for n in ast.walk(ps.node)
-    )
-    uses_format_type = "type_name = self.formatter.format_type(single)" in t
-    res.inst(part="py", where=ps.qual, converter="format_type(single)" if uses_format_type else "?", enum_safe=conv_enum_safe)
-    if uses_format_type and not conv_enum_safe:
-        fd = Finding("D6", ps.rel, ps.node.lineno, ps.qual, "type_name = self.formatter.format_type(single)", "a decoded chunk of an enum field is converted with the IntEnum class, a partial function: a chunk (part of a value) need not be a member", witness="enum Big : uint12 { A = 0x123 } at bit offset 3: decode raises ValueError '3 is not a valid Big'", tag="py:set-byte:enum-converter")
-        fd.part = "py"
-        res.bad(fd)
-    if conv_enum_safe:
-        # direct enum fields must OR into the integer proxy, not through the property (whose getter constructs the enum)
-        proxy = any(isinstance(n, ast.Assign) and src_of(n.targets[0]) == "left" and "_enum_field_proxy_prefix" in src_of(n.value) for n in ast.walk(ps.node))
-        if not proxy:
-            fd = Finding("D6", ps.rel, ps.node.lineno, ps.qual, "", "chunks of a direct enum field are ORed through the enum property: its getter constructs the enum from a partial value", witness="uint12 enum at offset 3", tag="py:set-byte:enum-proxy")
-            fd.part = "py"
-            res.bad(fd)
     # OR-accumulated leaves must start from zero in a freshly constructed message
     pf = m.cls("PyFormatter", "impls/py/formatter.py")
     zero_ok = {"format_default_value_bool": {"'False'"}, "format_default_value_byte": {"'bp.byte(0)'", "'0'"}, "format_default_value_uint": {"'0'"}, "format_default_value_int": {"'0'"}}
@@ -737,17 +557,6 @@ def d6(repo: Repo) -> RuleResult:
                     fd = Finding("D6", pf.rel, r.lineno, "PyFormatter.format_default_value_array", shape, f"the array default repeats ONE element object `[x] * n` for element kinds {mutable}, whose defaults are mutable (an alias may name an array): all rows are the same object and decoded chunks are ORed into it", witness="type Row = uint8[2]; message M { Row[2] rows = 1 }: after decode both rows are equal, re-encoding differs", tag="py:default:array-shared")
                     fd.part = "py-decode"
                     res.bad(fd)
-    gs = m.func("impls/go/renderer.py", "BlockMessageMethodBpSetByteItem.render_single")
-    t = src_of(gs.node)
-    res.inst(part="go", where=gs.qual, templates=_fstrings(gs.node))
-    if "value = f'{type_name}(b)'" not in t.replace('"', "'") or "shift = '<< lshift'" not in t or "{left} {assign} ({value} {shift})" not in _fstrings(gs.node):
-        fd = Finding("D6", gs.rel, gs.node.lineno, gs.qual, "", "Go set-byte must widen the byte before shifting: field |= (T(b) << lshift)", witness="uint16: T(b << 8) is always 0", tag="go:set-byte")
-        fd.part = "go"
-        res.bad(fd)
-    if "type_name = self.formatter.format_type(single)" not in t or "if alias:\n        type_name = self.formatter.format_type(alias)" not in t:
-        fd = Finding("D6", gs.rel, gs.node.lineno, gs.qual, "", "the conversion type is not the leaf's Go type (alias name if aliased)", tag="go:set-byte:type")
-        fd.part = "go"
-        res.bad(fd)
     # enum proxy prefix: one constant everywhere
     pm = m.mod("impls/py/renderer.py")
     lits = [n.value for n in ast.walk(pm.tree) if isinstance(n, ast.Constant) and isinstance(n.value, str) and "_enum_field_proxy" in n.value]
